@@ -1,9 +1,434 @@
 package main
 
-// M6 — crash-consistent in-memory file system (filled in with C04/C08).
+// M6 — crash-consistent in-memory file system (vfs.NewMem / vfs.NewStrictMem).
+//
+// Every file has (volatile content, durable content); every directory has
+// (volatile entries, durable entries). File.Sync makes the file's content
+// durable, Sync on a directory handle makes its entry set durable; Create /
+// Rename / Remove / MkdirAll change volatile entries only. A crash
+// (ResetToSyncedState) replaces volatile by durable everywhere; entries never
+// made durable vanish with everything below them. A Pebble database lives in
+// its directory's inode: committed content is volatile until Flush (the WAL
+// is disabled), and survives a crash only if the directory itself does.
+// The non-strict variant (vfs.NewMem) makes everything durable at once.
+
+import (
+	"crypto/md5"
+	"fmt"
+	"go/types"
+	"path"
+	"sort"
+	"strings"
+)
+
+type fsInode struct {
+	dir     bool
+	data    []*Term
+	durData []*Term
+	ents    map[string]*fsInode
+	durEnts map[string]*fsInode
+	// pebble database state (directories only)
+	hasDB bool
+	dbCur []pEntry
+	dbDur []pEntry
+	dbGen int
+}
 
 type fsModel struct {
 	strict bool
+	root   *fsInode
+	ops    int
+	gen    int // bumped at every crash: handles from before are dead
 }
 
-func newFSModel(strict bool) *fsModel { return &fsModel{strict: strict} }
+type fsHandle struct {
+	fs    *fsModel
+	ino   *fsInode
+	pos   int
+	name  string
+	gen   int
+	close bool
+}
+
+func newFSModel(strict bool) *fsModel {
+	return &fsModel{strict: strict, root: &fsInode{dir: true, ents: map[string]*fsInode{}, durEnts: map[string]*fsInode{}}}
+}
+
+func splitPath(p string) []string {
+	p = path.Clean("/" + p)
+	if p == "/" {
+		return nil
+	}
+	return strings.Split(strings.TrimPrefix(p, "/"), "/")
+}
+
+func (f *fsModel) lookup(p string) *fsInode {
+	n := f.root
+	for _, el := range splitPath(p) {
+		if n == nil || !n.dir {
+			return nil
+		}
+		n = n.ents[el]
+	}
+	return n
+}
+
+func (f *fsModel) parentOf(p string) (*fsInode, string) {
+	els := splitPath(p)
+	if len(els) == 0 {
+		return nil, ""
+	}
+	n := f.root
+	for _, el := range els[:len(els)-1] {
+		if n == nil || !n.dir {
+			return nil, ""
+		}
+		n = n.ents[el]
+	}
+	if n == nil || !n.dir {
+		return nil, ""
+	}
+	return n, els[len(els)-1]
+}
+
+func (f *fsModel) mkdirAll(p string) *fsInode {
+	n := f.root
+	for _, el := range splitPath(p) {
+		c := n.ents[el]
+		if c == nil {
+			c = &fsInode{dir: true, ents: map[string]*fsInode{}, durEnts: map[string]*fsInode{}}
+			n.ents[el] = c
+			if !f.strict {
+				n.durEnts[el] = c
+			}
+		}
+		if !c.dir {
+			return nil
+		}
+		n = c
+	}
+	return n
+}
+
+func copyEnts(m map[string]*fsInode) map[string]*fsInode {
+	r := make(map[string]*fsInode, len(m))
+	for k, v := range m {
+		r[k] = v
+	}
+	return r
+}
+
+// crash: volatile := durable, everywhere.
+func (f *fsModel) crash() {
+	f.gen++
+	var walk func(n *fsInode)
+	walk = func(n *fsInode) {
+		if n.dir {
+			n.ents = copyEnts(n.durEnts)
+			if n.hasDB {
+				n.dbCur = n.dbDur
+				n.dbGen++
+			}
+			for _, c := range n.ents {
+				walk(c)
+			}
+		} else {
+			n.data = append([]*Term(nil), n.durData...)
+		}
+	}
+	walk(f.root)
+}
+
+func (p *Path) fsErr(kind string, name string) Value {
+	// os.ErrNotExist-like errors: distinct per kind, message carries the path
+	e := p.newWrapErr(kind+" "+name, []Value{p.sentinelError("io/fs.Err" + kind)})
+	return e
+}
+
+func (p *Path) fileInfo(name string, n *fsInode) Value {
+	no := &NativeObj{Kind: "os.FileInfo", T: types.NewPointer(p.eng.namedType("os", "fileStat"))}
+	no.Methods = map[string]*NativeFunc{
+		"IsDir": {Name: "FileInfo.IsDir", F: func(p *Path, g *Goroutine, a []Value) Value { return p.ctx.Bool(n.dir) }},
+		"Name":  {Name: "FileInfo.Name", F: func(p *Path, g *Goroutine, a []Value) Value { return path.Base(name) }},
+		"Size":  {Name: "FileInfo.Size", F: func(p *Path, g *Goroutine, a []Value) Value { return p.ctx.BV(uint64(len(n.data)), 64) }},
+	}
+	return Iface{T: no.T, V: no}
+}
+
+func (p *Path) fsFile(f *fsModel, n *fsInode, name string) Value {
+	h := &fsHandle{fs: f, ino: n, name: name, gen: f.gen}
+	no := &NativeObj{Kind: "vfs.File", T: types.NewPointer(p.eng.namedType(vfsPkg, "memFile")), Data: h}
+	dead := func(p *Path) {
+		if h.gen != f.gen {
+			panic(unsupported{"use of a file handle from before a crash"})
+		}
+	}
+	no.Methods = map[string]*NativeFunc{
+		"Write": {Name: "File.Write", F: func(p *Path, g *Goroutine, a []Value) Value {
+			dead(p)
+			if n.dir {
+				return Tuple{p.ctx.BV(0, 64), p.newError("write on a directory")}
+			}
+			ts := p.sliceTerms(a[1])
+			n.data = append(n.data, ts...)
+			if !f.strict {
+				n.durData = append([]*Term(nil), n.data...)
+			}
+			return Tuple{p.ctx.BV(uint64(len(ts)), 64), Iface{}}
+		}},
+		"Read": {Name: "File.Read", F: func(p *Path, g *Goroutine, a []Value) Value {
+			dead(p)
+			buf, _ := a[1].([]Value)
+			if h.pos >= len(n.data) {
+				return Tuple{p.ctx.BV(0, 64), p.loadGlobalErr("io", "EOF")}
+			}
+			k := copy(buf, p.termsToSlice(n.data[h.pos:]))
+			h.pos += k
+			return Tuple{p.ctx.BV(uint64(k), 64), Iface{}}
+		}},
+		"Sync": {Name: "File.Sync", F: func(p *Path, g *Goroutine, a []Value) Value {
+			dead(p)
+			if n.dir {
+				n.durEnts = copyEnts(n.ents)
+			} else {
+				n.durData = append([]*Term(nil), n.data...)
+			}
+			return Iface{}
+		}},
+		"Close": {Name: "File.Close", F: func(p *Path, g *Goroutine, a []Value) Value { h.close = true; return Iface{} }},
+		"Stat": {Name: "File.Stat", F: func(p *Path, g *Goroutine, a []Value) Value {
+			return Tuple{p.fileInfo(name, n), Iface{}}
+		}},
+	}
+	return Iface{T: no.T, V: no}
+}
+
+// loadGlobalErr reads an error variable of an interpreted package (io.EOF).
+func (p *Path) loadGlobalErr(pkg, name string) Value {
+	pk := p.eng.prog.ImportedPackage(pkg)
+	g := pk.Var(name)
+	return p.load(g.Type().(*types.Pointer).Elem(), p.globalAddr(g))
+}
+
+// fsOf unwraps a vfs.FS value to the model behind it (through harness
+// wrappers that embed a vfs.FS).
+func (p *Path) fsOf(v Value, depth int) *fsModel {
+	if depth > 4 {
+		return nil
+	}
+	switch x := v.(type) {
+	case Iface:
+		if x.T == nil {
+			return nil
+		}
+		return p.fsOf(x.V, depth+1)
+	case *NativeObj:
+		if m, ok := x.Data.(*fsModel); ok {
+			return m
+		}
+	case *Value:
+		if x == nil || *x == nil {
+			return nil
+		}
+		if st, ok := (*x).(Struct); ok {
+			for _, f := range st {
+				if m := p.fsOf(f, depth+1); m != nil {
+					return m
+				}
+			}
+		}
+	case Struct:
+		for _, f := range x {
+			if m := p.fsOf(f, depth+1); m != nil {
+				return m
+			}
+		}
+	}
+	return nil
+}
+
+func (p *Path) fsOpenPebble(fsv Value, dir string) *pDB {
+	f := p.fsOf(fsv, 0)
+	if f == nil {
+		return nil
+	}
+	n := f.lookup(dir)
+	if n == nil {
+		n = f.mkdirAll(dir)
+	}
+	if n == nil || !n.dir {
+		panic(unsupported{"pebble.Open on a non-directory"})
+	}
+	if !n.hasDB {
+		n.hasDB = true
+		n.dbCur, n.dbDur = nil, nil
+		if !f.strict {
+			// pebble syncs its own directory; on the non-strict FS everything is durable anyway
+		}
+	}
+	// Pebble creates and syncs the files inside its own directory, never the
+	// entry of that directory in its parent.
+	db := &pDB{dir: dir, ents: n.dbCur, ino: n, fs: f, inoGen: n.dbGen}
+	return db
+}
+
+func (p *Path) fsPebbleFlushed(db *pDB) {
+	if db.ino != nil {
+		db.ino.dbDur = db.ents
+	}
+}
+
+// dbSync keeps the inode's volatile view in step with the handle.
+func (db *pDB) syncInode() {
+	if db.ino != nil {
+		db.ino.dbCur = db.ents
+		if db.fs != nil && !db.fs.strict {
+			db.ino.dbDur = db.ents
+		}
+	}
+}
+
+func init() {
+	M := "(*" + vfsPkg + ".MemFS)."
+	fsArg := func(p *Path, v Value) *fsModel { return pData[*fsModel](p, v, "vfs.MemFS") }
+	reg(M+"Stat", func(p *Path, _ *frame, a []Value) Value {
+		f := fsArg(p, a[0])
+		name, _ := p.concreteString(a[1])
+		n := f.lookup(name)
+		if n == nil {
+			return Tuple{Iface{}, p.fsErr("NotExist", name)}
+		}
+		return Tuple{p.fileInfo(name, n), Iface{}}
+	})
+	reg(M+"MkdirAll", func(p *Path, _ *frame, a []Value) Value {
+		f := fsArg(p, a[0])
+		name, _ := p.concreteString(a[1])
+		if f.mkdirAll(name) == nil {
+			return p.newError("mkdir " + name + ": not a directory")
+		}
+		return Iface{}
+	})
+	open := func(p *Path, _ *frame, a []Value) Value {
+		f := fsArg(p, a[0])
+		name, _ := p.concreteString(a[1])
+		n := f.lookup(name)
+		if n == nil {
+			return Tuple{Iface{}, p.fsErr("NotExist", name)}
+		}
+		return Tuple{p.fsFile(f, n, name), Iface{}}
+	}
+	reg(M+"Open", open)
+	reg(M+"OpenDir", open)
+	reg(M+"Create", func(p *Path, _ *frame, a []Value) Value {
+		f := fsArg(p, a[0])
+		name, _ := p.concreteString(a[1])
+		par, base := f.parentOf(name)
+		if par == nil {
+			return Tuple{Iface{}, p.fsErr("NotExist", name)}
+		}
+		n := &fsInode{}
+		par.ents[base] = n
+		if !f.strict {
+			par.durEnts[base] = n
+		}
+		return Tuple{p.fsFile(f, n, name), Iface{}}
+	})
+	reg(M+"Rename", func(p *Path, _ *frame, a []Value) Value {
+		f := fsArg(p, a[0])
+		from, _ := p.concreteString(a[1])
+		to, _ := p.concreteString(a[2])
+		fp, fb := f.parentOf(from)
+		tp, tb := f.parentOf(to)
+		if fp == nil || fp.ents[fb] == nil || tp == nil {
+			return p.fsErr("NotExist", from)
+		}
+		tp.ents[tb] = fp.ents[fb]
+		delete(fp.ents, fb)
+		if !f.strict {
+			tp.durEnts[tb] = tp.ents[tb]
+			delete(fp.durEnts, fb)
+		}
+		return Iface{}
+	})
+	remove := func(p *Path, _ *frame, a []Value) Value {
+		f := fsArg(p, a[0])
+		name, _ := p.concreteString(a[1])
+		par, base := f.parentOf(name)
+		if par != nil {
+			delete(par.ents, base)
+			if !f.strict {
+				delete(par.durEnts, base)
+			}
+		}
+		return Iface{}
+	}
+	reg(M+"Remove", remove)
+	reg(M+"RemoveAll", remove)
+	reg(M+"List", func(p *Path, _ *frame, a []Value) Value {
+		f := fsArg(p, a[0])
+		name, _ := p.concreteString(a[1])
+		n := f.lookup(name)
+		if n == nil || !n.dir {
+			return Tuple{[]Value(nil), p.fsErr("NotExist", name)}
+		}
+		var names []string
+		for k := range n.ents {
+			names = append(names, k)
+		}
+		sort.Strings(names)
+		out := make([]Value, len(names))
+		for i, s := range names {
+			out[i] = s
+		}
+		return Tuple{out, Iface{}}
+	})
+	reg(M+"ResetToSyncedState", func(p *Path, _ *frame, a []Value) Value {
+		fsArg(p, a[0]).crash()
+		return nil
+	})
+	regNoop(M + "SetIgnoreSyncs")
+	reg(M+"PathDir", func(p *Path, _ *frame, a []Value) Value {
+		name, _ := p.concreteString(a[1])
+		return path.Dir(name)
+	})
+	reg(M+"PathBase", func(p *Path, _ *frame, a []Value) Value {
+		name, _ := p.concreteString(a[1])
+		return path.Base(name)
+	})
+	reg(M+"PathJoin", func(p *Path, _ *frame, a []Value) Value {
+		var els []string
+		for _, e := range a[1].([]Value) {
+			s, _ := p.concreteString(e)
+			els = append(els, s)
+		}
+		return path.Join(els...)
+	})
+
+	// md5 over concrete bytes (directory names are concrete in every harness)
+	reg("crypto/md5.New", func(p *Path, _ *frame, a []Value) Value {
+		var buf []byte
+		no := &NativeObj{Kind: "md5", T: types.NewPointer(p.eng.namedType("crypto/md5", "digest"))}
+		no.Methods = map[string]*NativeFunc{
+			"Write": {Name: "md5.Write", F: func(p *Path, g *Goroutine, a []Value) Value {
+				b, ok := p.concreteBytes(a[1])
+				if !ok {
+					panic(unsupported{"md5 over symbolic bytes"})
+				}
+				buf = append(buf, b...)
+				return Tuple{p.ctx.BV(uint64(len(b)), 64), Iface{}}
+			}},
+			"Sum": {Name: "md5.Sum", F: func(p *Path, g *Goroutine, a []Value) Value {
+				s := md5.Sum(buf)
+				prefix, _ := a[1].([]Value)
+				return append(append([]Value(nil), prefix...), p.bytesToSlice(s[:])...)
+			}},
+		}
+		return Iface{T: no.T, V: no}
+	})
+	// distinct fresh directory names
+	reg(regattaMod+"/pebble.GetNewRandomDBDirName", func(p *Path, _ *frame, a []Value) Value {
+		p.nextID++
+		return fmt.Sprintf("rnd_%d", p.nextID)
+	})
+	reg("os.Hostname", func(p *Path, _ *frame, a []Value) Value { return Tuple{"host", Iface{}} })
+}
